@@ -181,6 +181,9 @@ func RunVariantChild(repo, prop, variant string) int {
 		switch o.Status {
 		case core.Violated:
 			out.Violated = append(out.Violated, o.Rule+" "+o.Construct)
+			if os.Getenv("SSCHECK_DEBUG") != "" {
+				fmt.Fprintf(os.Stderr, "violated %s %s: %s %v\n", o.Rule, o.Construct, o.Detail, o.Sites)
+			}
 		case core.Undec:
 			out.Undecided = append(out.Undecided, o.Rule+" "+o.Construct+": "+o.Detail)
 		}
